@@ -140,6 +140,7 @@ class Sched:
         self.opcode_budget = 0
         self.line_funcs = set()          # (function name) -> every source line is a yield point
         self.line_budget = 0
+        self._lt, self._ot = self._linetrace, self._optrace
         self.line_files = ()             # tuple of file name suffixes: every function of these bromelia files is traced by line
         self.opcode_files = ()           # ... by bytecode
         self.log_ops = False
@@ -349,27 +350,29 @@ class Sched:
             fn = frame.f_code.co_filename
             if self.opcode_files and fn.endswith(self.opcode_files):
                 frame.f_trace_opcodes = True
-                return self._optrace
+                return self._ot
             if self.line_files and fn.endswith(self.line_files):
-                return self._linetrace
+                return self._lt
             if frame.f_code.co_name in self.opcode_funcs:
                 frame.f_trace_opcodes = True
-                return self._optrace
+                return self._ot
             if frame.f_code.co_name in self.line_funcs:
-                return self._linetrace
+                return self._lt
         return None
 
+    # (the local trace functions are returned as the SAME object every time: with a fresh bound method per event CPython 3.12
+    # stops delivering 'opcode' events after the first one)
     def _linetrace(self, frame, event, arg):
         if event == "line" and self.line_budget > 0:
             self.line_budget -= 1
             self.yield_op(("op", None, "line"), write=False)
-        return self._linetrace
+        return self._lt
 
     def _optrace(self, frame, event, arg):
         if event == "opcode" and self.opcode_budget > 0:
             self.opcode_budget -= 1
             self.yield_op(("op", None, "opcode"), write=False)
-        return self._optrace
+        return self._ot
 
 
 class PCT:
